@@ -27,8 +27,10 @@ def colW (w : String) : Option ColW :=
 
 def leaf (s : String) : Option Leaf :=
   if s == "n" then some .other
+  else if s == "k" then some .carousel
   else match nats (s.drop 1).toString with
     | [l, r] => if s.startsWith "i" then some (.image l r) else if s.startsWith "d" then some (.divider l r) else none
+    | [l, r, w] => if s.startsWith "w" then some (.imageW l r w) else none
     | _ => none
 
 def col (s : String) : Option Col :=
